@@ -2,6 +2,7 @@ import TxdbusModel.Proofs.Bus.Semantics
 import TxdbusModel.Proofs.Bus.Belief
 import TxdbusModel.Proofs.Bus.SpecExec
 import TxdbusModel.Proofs.Bus.Lookup
+import TxdbusModel.Proofs.Bus.LookupRoute
 import TxdbusModel.Bus.NamesPre
 /-!
 # Property C13 — built-in bus: a name has one live owner; ownership follows request flags
@@ -406,6 +407,125 @@ theorem stale_table_entry_witness :
 
 end Txdbus.Bus
 
+/-! ## 10. C14's routing model on C13's name table (extension 2026-09-30)
+
+C14's model (`Txdbus.BusRoute`) keeps the heads of the queues in its own field `owners`, changed only
+by the `setOwner` / `unsetOwner` effects its events carry; `unicast_exact` / `owner_unique` of C14
+hold for every effect list and need no hypothesis about that table - but say nothing about who is in
+it.  `OwnersAgree enc φ s o`: C14's table `o` holds, for every well-known name, the connection C13's
+`routerLookup s` finds (`enc` = the name's string, `φ` = C13's connection number -> C14's index).
+`ownerEffects enc φ names s s'` = the effects C13's model computes for a step `s -> s'`. -/
+namespace Txdbus.NamesRoute
+
+open Txdbus.BusRoute (Cfg ConnId Effect applyEffects)
+
+variable {ρ : Type} {enc : Bus.Name → BusRoute.Name} {φ : Bus.Conn → ConnId}
+
+/-- Every successful step of C13's model (any operation, from any state satisfying the invariant):
+C14's `applyEffects`, given the effects C13 computes for the names the operation can change (with any
+signals in between: `agree_applyEffects`), leaves C14's table in agreement with C13's lookup. -/
+theorem owners_follow_names_step (he : NameEnc enc) (cfg : Cfg ρ) {s s' : Bus.State} (hI : Bus.Inv s)
+    {op : Bus.Op} {evs : List Bus.Event} (hs : Bus.step s op = .ok (s', evs))
+    (r : BusRoute.State ρ) (ha : OwnersAgree enc φ s r.owners) :
+    OwnersAgree enc φ s' (applyEffects cfg r (ownerEffects enc φ (Bus.changedNames s op) s s')).1.owners :=
+  agree_step he cfg hI hs r ha
+
+/-- Whole histories (name operations interleaved with lookups) from a fresh bus: a C14 table that starts
+empty and is fed the effect lists of C13's model, in order, agrees with C13's lookup after the history
+(hence, prefixes being histories, at every moment of it). -/
+theorem owners_follow_names_history (he : NameEnc enc) (cfg : Cfg ρ) {hs : List Bus.HStep} {s : Bus.State}
+    {outs : List Bus.HOut} (h : Bus.runL Bus.State.init hs = .ok (s, outs))
+    (r : BusRoute.State ρ) (hr0 : r.owners = []) :
+    OwnersAgree enc φ s (applyEffects cfg r (runEffects enc φ Bus.State.init hs).flatten).1.owners := by
+  rw [applyEffects_owners, hr0]
+  exact agree_run he Bus.inv_init (fun n => rfl) h
+
+/-- On such a table C14's model of the lookup (`BusRoute.resolve`) IS C13's (`Bus.routerLookup`). -/
+theorem router_models_agree (he : NameEnc enc) {s : Bus.State} (r : BusRoute.State ρ)
+    (ha : OwnersAgree enc φ s r.owners) (n : Bus.Name) :
+    BusRoute.resolve r (enc n) = (Bus.routerLookup s (.wellKnown n)).map φ :=
+  resolve_is_routerLookup he r ha n
+
+/-- C14's `unicast_exact` for the bus whose names are managed by C13's model: after ANY history of C14's
+model whose table agrees with a reachable state `s` of C13's model, a message for a well-known name sent
+by a live connection is delivered exactly once, to the connection C13's specification names as the owner
+in `abs s` (a connection that is connected according to C13), and to nobody when there is no owner. -/
+theorem unicast_reaches_spec_owner {cfg : Cfg ρ} (hr : cfg.Repaired) (h : List (BusRoute.Event ρ))
+    (he : NameEnc enc) {s : Bus.State} (hs : Bus.Reachable s)
+    (ha : OwnersAgree enc φ s (BusRoute.final cfg BusRoute.State.init h).owners)
+    (i : ConnId) (m : BusRoute.Msg) (op : BusRoute.BusOp ρ) (n : Bus.Name)
+    (hm : BusRoute.Addressed m (enc n)) (hl : BusRoute.Live (BusRoute.final cfg BusRoute.State.init h) i) :
+    ∃ nm, BusRoute.nameOf (BusRoute.step cfg (BusRoute.final cfg BusRoute.State.init h) (.msg i m op)).1 i = some nm ∧
+      (BusRoute.step cfg (BusRoute.final cfg BusRoute.State.init h) (.msg i m op)).2.deliveries =
+        (match (Bus.abs s).ownerOf (.wellKnown n) with
+         | some k => [⟨φ k, .fwd i (BusRoute.remarshal m nm)⟩]
+         | none => []) ∧
+      (∀ k, (Bus.abs s).ownerOf (.wellKnown n) = some k → s.connected k = true) :=
+  unicast_reaches_names_owner hr h he hs ha i m op n hm hl
+
+/-- What C13 adds to C14's `owner_unique`: the (unique) owner of a well-known name is a LIVE connection
+of C14's model as soon as the connections C13 has connected are (C14's invariant leaves `owners` free). -/
+theorem wellknown_owner_is_live (he : NameEnc enc) {s : Bus.State} (hs : Bus.Reachable s)
+    (r : BusRoute.State ρ) (ha : OwnersAgree enc φ s r.owners)
+    (hlive : ∀ k, s.connected k = true → BusRoute.Live r (φ k))
+    (j : ConnId) (n : Bus.Name) (hj : BusRoute.Owns r j (enc n)) : BusRoute.Live r j :=
+  names_owner_live he hs r ha hlive j n hj
+
+/-! The hypotheses are satisfiable: strings `a`, `aa`, ... for the names; C13 history: 1 owns name 0,
+2 waits, 1 disconnects; C14 history: two connections, the first disconnects and the effect list of that
+disconnect is the one C13's model computes (`setOwner (enc 0) 1`: hand-over to the waiter). -/
+def exEnc (n : Bus.Name) : BusRoute.Name := List.replicate (n + 1) 'a'
+
+theorem exEnc_ok : NameEnc exEnc := by
+  constructor
+  · intro a b h
+    have := congrArg List.length h
+    simp [exEnc] at this
+    exact this
+  · intro a
+    simp [exEnc, List.replicate_succ]
+
+def exHist : List Bus.HStep :=
+  [.op .connect, .op .connect, .op (.request 1 0 0), .op (.request 2 0 0), .send 2 (.wellKnown 0),
+   .op (.disconnect 1)]
+
+/-- The state of C14's model in which the effects of the example are applied: two connections, the
+first already marked lost (`stepDisconnect` applies the effects after that). -/
+def exBase : BusRoute.State ρ :=
+  { conns := [{ BusRoute.Conn.fresh with isConnected := false }, BusRoute.Conn.fresh] }
+
+example (cfg : Cfg ρ) :
+    ∃ (h : List (BusRoute.Event ρ)) (s : Bus.State), Bus.Reachable s ∧
+      Bus.routerLookup s (.wellKnown 0) = some 2 ∧
+      OwnersAgree exEnc (fun k => k - 1) s (BusRoute.final cfg BusRoute.State.init h).owners ∧
+      BusRoute.Live (BusRoute.final cfg BusRoute.State.init h) 1 ∧
+      BusRoute.Owns (BusRoute.final cfg BusRoute.State.init h) 1 (exEnc 0) := by
+  obtain ⟨s, outs, hrun⟩ : ∃ s outs, Bus.runL Bus.State.init exHist = .ok (s, outs) := ⟨_, _, rfl⟩
+  have hlook : Bus.routerLookup s (.wellKnown 0) = some 2 := by
+    have : (Bus.runL Bus.State.init exHist).toOption.map (fun r => Bus.routerLookup r.1 (.wellKnown 0))
+        = some (some 2) := by decide
+    rw [hrun] at this
+    simpa [Except.toOption] using this
+  have hreach : Bus.Reachable s := by
+    obtain ⟨evss, h2⟩ := Bus.lookups_change_nothing hrun
+    exact Bus.reachable_of_run Bus.Reachable.init h2
+  let effs := (runEffects exEnc (fun k => k - 1) Bus.State.init exHist).flatten
+  have hfin : BusRoute.final cfg BusRoute.State.init [.connect, .connect, .disconnect 0 effs]
+      = (applyEffects cfg (exBase (ρ := ρ)) effs).1 := by
+    generalize effs = e
+    rfl
+  have hagree := owners_follow_names_history (φ := fun k => k - 1) exEnc_ok cfg hrun (exBase (ρ := ρ)) rfl
+  refine ⟨[.connect, .connect, .disconnect 0 effs], s, hreach, hlook, ?_, ?_, ?_⟩
+  · rw [hfin]; exact hagree
+  · rw [hfin]
+    show BusRoute.connected _ 1 = true
+    rw [BusRoute.connected_congr _ _ (BusRoute.applyEffects_frame cfg exBase effs).1]
+    rfl
+  · rw [hfin, owns_wellKnown exEnc_ok, hagree 0, hlook]
+    rfl
+
+end Txdbus.NamesRoute
+
 #print axioms Txdbus.Bus.inv_reachable
 #print axioms Txdbus.Bus.inv_step
 #print axioms Txdbus.Bus.at_most_one_owner_and_alive
@@ -436,3 +556,8 @@ end Txdbus.Bus
 #print axioms Txdbus.Bus.lookups_change_nothing
 #print axioms Txdbus.Bus.queries_agree_any_name
 #print axioms Txdbus.Bus.prefix_router_finds_dead_owner
+#print axioms Txdbus.NamesRoute.owners_follow_names_step
+#print axioms Txdbus.NamesRoute.owners_follow_names_history
+#print axioms Txdbus.NamesRoute.router_models_agree
+#print axioms Txdbus.NamesRoute.unicast_reaches_spec_owner
+#print axioms Txdbus.NamesRoute.wellknown_owner_is_live
